@@ -207,6 +207,8 @@ let run_reg line =
     | ["REG"; q] -> reg_noerr := false; s := { rg = (fun _ -> N0); qlen = Z0; qcap = int_to_z (int_of_string q) }
     | ["REGN"; q] -> reg_noerr := true; s := { rg = (fun _ -> N0); qlen = Z0; qcap = int_to_z (int_of_string q) }
     | ["W"; r; v] -> step (wr !s (L.nth regs_all (int_of_string r)) (int_to_n (int_of_string v)))
+    | ["T"; r; v] -> step (CmdModel.reg_bits !s (L.nth regs_all (int_of_string r)) true (int_to_n (int_of_string v)))
+    | ["U"; r; v] -> step (CmdModel.reg_bits !s (L.nth regs_all (int_of_string r)) false (int_to_n (int_of_string v)))
     | ["P"; c] -> step (push !s (int_to_z (int_of_string c)))
     | ["O"] -> step (pop !s)
     | ["C"] -> step (clear !s)
